@@ -149,11 +149,21 @@ where
         }
         Ok(Err(err)) => {
             clean_on_error();
+            // All the elements have been dropped, release the allocation
+            unsafe {
+                manually_drop.set_len(0);
+                ManuallyDrop::drop(&mut manually_drop);
+            }
             Err(err)
         }
         Err(err) => {
             clean_on_error();
-            panic!("{:?}", err);
+            // All the elements have been dropped, release the allocation
+            unsafe {
+                manually_drop.set_len(0);
+                ManuallyDrop::drop(&mut manually_drop);
+            }
+            std::panic::resume_unwind(err);
         }
     }
 }
